@@ -79,6 +79,12 @@ func c12History(w *gen.World, rng *rand.Rand, n int) []c02Query {
 			b2.EDNS, b2.Size, b2.TCP = true, 4096, false
 			out = append(out, a, b2)
 		}
+		// the same question again with an EDNS version the server does not support (BADVERS whatever the cache holds)
+		if rng.Intn(8) == 0 {
+			v := q
+			v.EDNS, v.EVer = true, uint8(1+rng.Intn(255))
+			out = append(out, v)
+		}
 		// immediate repeats and near repeats: same key again, from another client / with other EDNS
 		for rng.Intn(2) == 0 {
 			q2 := c02FromClient(name, t, clients[rng.Intn(len(clients))], rng)
